@@ -24,7 +24,7 @@ ASSUMPTIONS = ["where no valid argument exists in the state (truncate of an empt
                "metadata) only 'raises and changes nothing' is required in mode r; the r+ success half is skipped",
                "snapshot compares file content, kind and permission bits; mtime is ignored"]
 EXHAUSTIVE = "the full kind x state x metadata x how x mutator matrix (no preceding history)"
-KINDS = {'Array': ['empty', 'nonempty', 'empty2d'], 'Ragged': ['nosub', 'emptyvalues', 'nonempty']}
+KINDS = {'Array': ['empty', 'nonempty', 'empty2d', 'zerotail'], 'Ragged': ['nosub', 'emptyvalues', 'nonempty']}
 HOWS = ['default-open', 'create-r', 'assign', 'r-r+-r', 'after-r+block', 'reassign-r-after-metadata-r+', 'after-nested-mixed-blocks', 'switched-inside-open-context']
 MUTS = {'Array': ['setitem', 'append', 'iterappend', 'truncate', 'delete', 'md.update', 'md.setitem', 'md.pop', 'md.popdefault', 'md.popitem', 'md.del'],
         'Ragged': ['append', 'append0', 'iterappend', 'truncate', 'delete', 'md.update', 'md.setitem', 'md.pop', 'md.popdefault', 'md.popitem', 'md.del']}
@@ -40,6 +40,8 @@ def _create(kind, state, meta, path, mode):
             return darr.create_array(path, shape=(0,), dtype='int32', accessmode=mode, metadata=md, chunklen=1)
         if state == 'empty2d':
             return darr.asarray(path, np.zeros((0, 3), 'float64'), accessmode=mode, metadata=md)
+        if state == 'zerotail':      # three rows without elements: empty through a non-first axis
+            return darr.asarray(path, np.zeros((3, 0), dtype='int32'), accessmode=mode, metadata=md, chunklen=1)
         return darr.asarray(path, np.arange(6, dtype='int32').reshape(3, 2), accessmode=mode, metadata=md)
     if state == 'nosub':
         return darr.create_raggedarray(path, atom=(), dtype='int32', accessmode=mode, metadata=md)
@@ -58,20 +60,20 @@ def _mutator(kind, state, meta, mut):
     """Returns (call(handle), verify(handle, path) -> str|None, valid_in_rplus)."""
     import darr
     if kind == 'Array':
-        row = [7, 8] if state == 'nonempty' else ([1.5, 2.5, 3.5] if state == 'empty2d' else 9)
-        n0 = 3 if state == 'nonempty' else 0
+        row = [7, 8] if state == 'nonempty' else ([1.5, 2.5, 3.5] if state == 'empty2d' else [] if state == 'zerotail' else 9)
+        n0 = 3 if state in ('nonempty', 'zerotail') else 0
     if mut == 'setitem':
         if state == 'nonempty':
             return (lambda h: h.__setitem__(0, 5), lambda h, p: None if (h[0] == 5).all() else 'assignment not visible', True)
         return (lambda h: h.__setitem__(slice(None), 5), lambda h, p: None, True)
     if mut == 'append' and kind == 'Array':
-        arg = [row] if state != 'empty' else [row]
+        arg = np.zeros((1, 0), 'int32') if state == 'zerotail' else [row]
         return (lambda h: h.append(arg), lambda h, p: None if len(h) == n0 + 1 else f'len {len(h)}', True)
     if mut == 'iterappend' and kind == 'Array':
-        arg = [row]
+        arg = np.zeros((1, 0), 'int32') if state == 'zerotail' else [row]
         return (lambda h: h.iterappend([arg, arg]), lambda h, p: None if len(h) == n0 + 2 else f'len {len(h)}', True)
     if mut == 'truncate' and kind == 'Array':
-        if state == 'nonempty':
+        if state in ('nonempty', 'zerotail'):
             return (lambda h: darr.truncate_array(h, 2), lambda h, p: None if len(h) == 2 else f'len {len(h)}', True)
         return (lambda h: darr.truncate_array(h, 0), None, False)
     if mut == 'delete':
@@ -239,10 +241,10 @@ def _pre(out, kind, state, h, pre):
             h.accessmode = p
         elif p == 'append' and h.accessmode == 'r+':
             if kind == 'Array':
-                row = [7, 8] if state == 'nonempty' else ([1.5, 2.5, 3.5] if state == 'empty2d' else 9)
-                h.append([row])
+                row = [7, 8] if state == 'nonempty' else ([1.5, 2.5, 3.5] if state == 'empty2d' else [] if state == 'zerotail' else 9)
+                h.append(np.zeros((1, 0), 'int32') if state == 'zerotail' else [row])
                 import darr
-                darr.truncate_array(h, len(h) - 1) if len(h) > 1 or state == 'nonempty' else None
+                darr.truncate_array(h, len(h) - 1) if len(h) > 1 or state in ('nonempty', 'zerotail') else None
             else:
                 h.append([9, 9])
                 import darr
